@@ -9,7 +9,7 @@ PID = "C06"
 RULE = ("every dtype in {bool,int,float,complex,str,date,timedelta,object(mixed)} x EVERY subset of None positions for every "
         "length 0..5 (63 patterns), crossed with: the 7 arithmetic operators in all five operand forms and the 3 unary "
         "operators (right-hand None patterns: none / same / complement / random), the 6 comparisons against vector, list "
-        "and scalar (plus date vectors against ISO strings: scalar, list, str vector; v == v; unequal lengths), the "
+        "and scalar (plus date vectors against ISO strings and against datetimes: scalar, list, typed vector; v == v; unequal lengths), the "
         "reductions sum, mean, min, max, stdev (sample and population), any, all, and isna/dropna/fillna with compatible, "
         "promoting (int<-float, int<-complex, float<-complex, date<-datetime), incompatible and None fill values on typed, "
         "untyped, all-None and empty vectors; per-group aggregates (sum, mean, min, max, count, stdev) of Table.aggregate and Table.window on "
@@ -31,6 +31,8 @@ OBJ = G.EXTRA["obj"]
 CPOOLS = dict(POOLS, obj=OBJ)
 CTYPES = list(CPOOLS)
 ISO = ["2020-01-31", "1999-12-31", "2021-06-01", "not-a-date"]
+DTM = [datetime.datetime(2020, 1, 31), datetime.datetime(1999, 12, 31, 23, 59), datetime.datetime(2021, 6, 1, 0, 0, 1),
+       datetime.datetime(2000, 1, 1)]
 PARTNERS = {"bool": ["int", "bool"], "int": ["int", "float"], "float": ["float", "int"], "complex": ["complex", "int"],
             "str": ["str", "int"], "date": ["td", "int", "date"], "td": ["td", "int", "float"], "obj": ["int"]}
 CMP_PARTNERS = {"bool": ["bool", "int"], "int": ["int", "float"], "float": ["float", "int"], "complex": ["complex"],
@@ -170,6 +172,15 @@ def gen_cmp(rng, tier):
                     yield {"fam": "cmp", "op": op, "form": form, "xt": "date", "yt": "iso", "x": cfill(rng, "date", px),
                            "y": [None if b else rng.randrange(4) for b in py], "xtyped": True,
                            "ytyped": rng.random() < 0.5}
+        # date vectors against datetimes (scalar, list, datetime vector): the date is taken at midnight, None compares False
+        for px in all_patterns(4):
+            yield {"fam": "cmp", "op": op, "form": "scalar", "xt": "date", "yt": "dtm", "x": cfill(rng, "date", px),
+                   "s": rng.randrange(4), "xtyped": True}
+            for form in ("seq", "vec"):
+                for py in y_patterns(rng, px):
+                    yield {"fam": "cmp", "op": op, "form": form, "xt": "date", "yt": "dtm", "x": cfill(rng, "date", px),
+                           "y": [None if b else rng.randrange(4) for b in py], "xtyped": True,
+                           "ytyped": rng.random() < 0.5}
         # typed empty date vector against an untyped empty vector, both ways round (Python gives the subclass priority)
         yield {"fam": "cmp", "op": op, "form": "vec", "xt": "date", "yt": "date", "x": [], "y": [], "xtyped": True, "ytyped": False}
         yield {"fam": "cmp", "op": op, "form": "vec", "xt": "date", "yt": "date", "x": [], "y": [], "xtyped": False, "ytyped": True}
@@ -290,9 +301,10 @@ def cmp_wire(spec):
     xs = cvals(spec["xt"], spec["x"])
     v = cvector(spec["xt"], xs, spec.get("xtyped", False))
     iso_mode = spec["yt"] == "iso"
+    dtm_mode = spec["yt"] == "dtm"
 
     def oval(i):
-        return None if i is None else (ISO[i % len(ISO)] if iso_mode else cval(spec["yt"], i))
+        return None if i is None else (ISO[i % len(ISO)] if iso_mode else DTM[i % len(DTM)] if dtm_mode else cval(spec["yt"], i))
     case = {"op": spec["op"], "form": form, "xs": [I.uid(x) for x in xs], "dt": dtype_wire(v.schema())}
     if spec.get("same"):
         other, ys = v, xs
@@ -305,16 +317,18 @@ def cmp_wire(spec):
         pairs = [(x, other) for x in xs]
     else:
         ys = [oval(i) for i in spec["y"]]
-        other = cvector("str" if iso_mode else spec["yt"], ys, spec.get("ytyped", False)) if form == "vec" else list(ys)
+        other = cvector("str" if iso_mode else "datetime" if dtm_mode else spec["yt"], ys, spec.get("ytyped", False)) if form == "vec" else list(ys)
         case["ys"] = [I.uid(y) for y in ys]
         if form == "vec":
             case["ydt"] = dtype_wire(other.schema())
         pairs = list(zip(xs, ys))
-    py, iso, strs, seen = [], [], set(), set()
+    py, iso, strs, dts, seen = [], [], set(), set(), set()
     for x, y in pairs:
         key = (I.uid(x), I.uid(y))
         if isinstance(y, str):
             strs.add(I.uid(y))
+        if isinstance(y, datetime.datetime):
+            dts.add(I.uid(y))
         if key in seen:
             continue
         seen.add(key)
@@ -323,7 +337,10 @@ def cmp_wire(spec):
         if iso_mode and form != "seq" and x is not None and y is not None:
             # what the date branch evaluates: bool(op(x, date.fromisoformat(y)))
             iso.append([key[0], key[1], bcode(lambda: op(x, datetime.date.fromisoformat(y)))])
-    case.update(py=py, iso=iso, strs=sorted(strs), dts=[])
+        if dtm_mode and form != "seq" and x is not None and y is not None:
+            # what the date branch evaluates: bool(op(datetime.combine(x, midnight), y))
+            iso.append([key[0], key[1], bcode(lambda: op(datetime.datetime.combine(x, datetime.time(0, 0)), y))])
+    case.update(py=py, iso=iso, strs=sorted(strs), dts=sorted(dts))
     r, err = G.run(lambda: op(v, other))
     impl = {"err": err} if err else bool_obs(r)
     return {"fam": "cmp", "case": case, "impl": impl}
@@ -621,16 +638,17 @@ def snippet(spec):
     vsrc = G.vec_src(spec["xt"], xs, typed)
     if fam == "cmp":
         iso_mode = spec["yt"] == "iso"
+        dtm_mode = spec["yt"] == "dtm"
 
         def oval(i):
-            return None if i is None else (ISO[i % len(ISO)] if iso_mode else cval(spec["yt"], i))
+            return None if i is None else (ISO[i % len(ISO)] if iso_mode else DTM[i % len(DTM)] if dtm_mode else cval(spec["yt"], i))
         if spec.get("same"):
             osrc = "v"
         elif spec["form"] == "scalar":
             osrc = G.pyrepr(oval(spec["s"]))
         else:
             ys = [oval(i) for i in spec["y"]]
-            osrc = G.vec_src("str" if iso_mode else spec["yt"], ys, spec.get("ytyped", False)) if spec["form"] == "vec" \
+            osrc = G.vec_src("str" if iso_mode else "datetime" if dtm_mode else spec["yt"], ys, spec.get("ytyped", False)) if spec["form"] == "vec" \
                 else G.pyrepr(ys)
         return (G.HEADER + f"v = {vsrc}\nother = {osrc}\nr = v {CMPSYM[spec['op']]} other\n"
                 "print(list(r), r.schema())   # expected: False wherever either side is None, <bool> non-nullable")
